@@ -874,9 +874,16 @@ def recipes():
     @reg
     def r_utils(S, rng):
         d = int(rng.choice([2, 3]))
-        which = str(rng.choice(["remove_pbc", "moment_of_inertia", "triangle_area", "grid_gaussian", "convert_configuration"]))
+        which = str(rng.choice(["remove_pbc", "moment_of_inertia", "triangle_area", "grid_gaussian", "convert_configuration", "sph_harm_l"]))
         if which == "moment_of_inertia":
             d = 3
+        if which == "sph_harm_l":
+            # bond angles handed over as 0-d arrays (what arr[i, j, ...] / np.arctan2 of 0-d operands / np.squeeze give): arrays like any other
+            import PyMatterSim.utils.spherical_harmonics as m_sph
+            l_ = int(rng.choice([2, 6, 10, 11, 14]))
+            ang = {"theta": np.asarray(float(np.arccos(rng.uniform(-1, 1)))), "phi": np.asarray(float(rng.uniform(-np.pi, np.pi)))}
+            return dict(name="sph_harm_l", par=(l_, float(ang["theta"]), float(ang["phi"])), args=ang,
+                        thunk=lambda o: (np.asarray(m_sph.sph_harm_l(l_, ang["theta"], ang["phi"])), {}))
         tri = bool(rng.random() < 0.5)
         sn = S.snap(d, tri=tri and which == "remove_pbc").snapshots[int(rng.integers(0, S.T))]
         v, ppp = S.pool[f"vec{d}"][0], S.pool[f"ppp{d}"]
